@@ -184,10 +184,7 @@ CHECKS = {
     ),
 }
 
-PENDING = {
-    "C02": "check built (vf/props/C02.py); the case lists of its open known findings are being generated, claimed once they are committed",
-    "C04": "check built (vf/props/C04.py); the case list of its open known finding is being generated, claimed once it is committed",
-}
+PENDING = {}
 
 
 def main():
